@@ -83,6 +83,15 @@ Theorem C04_exactly_the_sentences :
             exists x, n = compile x /\ wp x = true /\ npos x = true /\ Spell ts 0 (render lit_text x ++ [tk tEOF []]).
 Proof. exact (parse_tokens_exact_spell lit_text lit_ok). Qed.
 
+(* from bytes: Compile accepts a byte string exactly when the lexer turns it into
+   a token list that spells a well-precedenced tree, and the AST is that tree's *)
+Theorem C04_compile_exactly :
+  forall (s : bytes) n,
+    Api.compile s = Ok n <->
+    exists ts x, tokenize s = Ok ts /\ n = compile x /\ wp x = true /\ npos x = true /\
+                 Spell ts 0 (render lit_text x ++ [tk tEOF []]).
+Proof. exact (compile_exact lit_text lit_ok). Qed.
+
 (* ... and from bytes: the spaced text of every such tree is accepted by Compile *)
 Theorem C04_grammatical_text_is_accepted :
   forall x : expr, wp x = true -> npos x = true -> texty lit_text x = true ->
@@ -95,6 +104,7 @@ Print Assumptions C04_accept_or_reject.
 Print Assumptions C04_grammatical_is_accepted.
 Print Assumptions C04_accepted_is_a_sentence.
 Print Assumptions C04_exactly_the_sentences.
+Print Assumptions C04_compile_exactly.
 Print Assumptions C04_grammatical_text_is_accepted.
 Print Assumptions C04_accepted_is_a_tree.
 Print Assumptions C04_accepted_evaluates_as_its_tree.
